@@ -51,6 +51,10 @@ def families(tier):
     q.append({'name': 'N3', 'params': {'hist': 'BMB', 'universe': UN3, 'kinds': ['is_dir', 'list_dir', 'exists'], 'roles': ['o'],
                                     'bf_modes': ['ok', 'raise_before'], 'mut_paths': ['o'], 'mut_kinds': ['delete', 'rmtree', 'dir2file'],
                                     'inner_q': ['is_dir', 'list_dir'], 'inner_roles': ['o']}, 'weight': 2})
+    q.append({'name': 'A3r', 'params': {'hist': 'BMB', 'kinds': ['is_dir', 'exists', 'list_dir'], 'roles': ['o'], 'targets': ['o/d/g'], 'modes': ['ok'],
+                                     'mut_paths': ['o/d', 'o/d/g'], 'mut_kinds': ['delete', 'rmtree', 'dir2file', 'file2dir', 'write']}, 'weight': 1})
+    q.append({'name': 'V1', 'params': {'hist': 'BBB', 'universe': ['o', 'o/d', 'o/d/g']}, 'weight': 1})
+    q.append({'name': 'P2', 'params': {'hist': 'BBB', 'universe': ['o', 'o/d', 'o/dx']}, 'weight': 1})
     q.append({'name': 'A8b', 'params': {'hist': 'BMB', 'kinds': ['is_dir', 'list_dir'], 'mut_paths': ['o/d/z', 'o/d/e/z', 'o/d/e']}, 'weight': 1})
     q.append({'name': 'N3', 'params': {'hist': 'BB', 'universe': UN3, 'kinds': ['is_dir', 'list_dir', 'exists'], 'roles': ['o', 'o/d', 'o/m']}, 'weight': 2})
     if tier == 'quick':
@@ -81,7 +85,8 @@ def families(tier):
 
 def harness(eng, fam, P):
     bodies = skeleton(eng, fam, P)
-    progs = [Program(eng, b) for b in bodies]
+    shared = {}
+    progs = [Program(eng, b, shared) for b in bodies]
     eng.path_info['program'] = ' || '.join(show(b) for b in bodies)
     w = World(eng, P.get('universe', U7), sandbox=getattr(eng, 'sandbox', None), perm_listdir=P.get('perm'))
     try:
@@ -96,7 +101,10 @@ def harness(eng, fam, P):
                 if step == 'F':
                     crash = ('r', eng.choose('crash', len(prog.body) + 1))
                 nb += 1
-                impl, ref = d.build(prog, crash=crash)
+                versions = None
+                if fam == 'V1':
+                    versions = {'f': min(nb, 2)}      # build 1 runs version 1 of f, later builds version 2
+                impl, ref = d.build(prog, crash=crash, versions=versions)
                 d.check_same('C01', (fam, 'build%d' % nb))
                 desc.append('%s->%s' % (step, impl[0]))
                 if impl[0] == 'exc':
